@@ -1,5 +1,7 @@
 import Model.TlsAuth
+import Model.TlsAuthSess
 import Proofs.C20Lemmas
+import Proofs.C20Sess
 /-!
 # C20 — TLS verification and credential disclosure are exactly as documented (property theorems)
 
@@ -554,5 +556,119 @@ example : connect ⟨none, some (fun h => if h = 7 then .auth (some (.pw ⟨[117
 example : (connect ⟨none, some (fun h => if h = 7 then .auth (some (.pw ⟨[117], [112], []⟩)) else .auth none)⟩ 7
     [.supported, .authenticate (strBytes "org.apache.cassandra.auth.PasswordAuthenticator"), .authSuccess []]).sent =
     [.options, .startup, .authResponse [0, 117, 0, 112]] := by decide
+
+/-! ## several hosts, one session: the authenticator of a connection is a function of (configuration, host) -/
+
+/-- PER-HOST AUTHENTICATION, for every configuration (static Authenticator, AuthProvider with any host-dependent
+    answers, both, neither), every number of hosts, every sequence of connections of one session — pool connections
+    through the session-wide `*ConnConfig`, control-connection dials through a copy of it, in every order, hosts
+    re-dialled any number of times — and every frame sequence each node answers with:
+    (1) the trace of the i-th connection is what ONE connection to that host with that configuration gives
+        (`connect cfg host fs`): nothing is carried over from the connections opened before it;
+    (2) the session-wide configuration object is the same after the connections as before (`Conn.init` only reads it);
+    (3) hence, at every position, the AuthProvider is consulted exactly once and for the host being dialled, and
+        every AUTH_RESPONSE that leaves the client is the token of THAT host's own authenticator
+        (`Spec.credentials cfg host`), for password credentials only in reply to a class approved by THAT
+        authenticator's list. -/
+theorem C20_auth_per_host (cfg : AuthCfg) (ds : List Dial) :
+    session cfg ds = ds.map (fun d => connect cfg d.host d.fs) ∧
+    sessFinal initConn cfg ds = cfg ∧
+    (∀ i (hi : i < ds.length) (hj : i < (session cfg ds).length),
+      ((session cfg ds)[i]).provCalls = (if cfg.provider.isSome then [ds[i].host] else []) ∧
+      ∀ tok, Sent.authResponse tok ∈ ((session cfg ds)[i]).sent →
+        ∃ a, Spec.credentials cfg ds[i].host = some (some a) ∧
+          (∀ p, a = .pw p → ∃ cls tl, ds[i].fs = .supported :: .authenticate cls :: tl ∧
+            approve cls p.allowed = true ∧ tok = plainToken p.user p.pass) ∧
+          (∀ rs sf, a = .custom rs sf → tok ∈ rs.map (·.resp))) := by
+  obtain ⟨h1, h2⟩ := sessRun_readonly initConn (fun _ _ _ => rfl) cfg ds
+  have h1' : session cfg ds = ds.map (fun d => connect cfg d.host d.fs) := h1
+  refine ⟨h1', h2, ?_⟩
+  intro i hi hj
+  have he : (session cfg ds)[i] = connect cfg ds[i].host ds[i].fs := by
+    simp [h1']
+  rw [he]
+  exact ⟨(C20_auth_resolution cfg ds[i].host ds[i].fs).2.2,
+    fun tok hm => C20_credentials_per_host cfg ds[i].host ds[i].fs tok hm⟩
+
+/-- The same in terms of what each NODE observes, for the nodes of the scenarios (a node demands authentication
+    advertising its own authenticator class and accepts the first token, or demands none): for every configuration
+    and every sequence of (pool | control, host, node), the observation of every connection — provider consulted for,
+    first token received, connection established — is `Spec.expectFor cfg host node`: the token ITS authenticator
+    would send and only if ITS allow-list approves the advertised class.  (`Spec.expectFor` is written without the
+    handshake code; this theorem makes the op `sessauth` spec-backed.) -/
+theorem C20_session_observations (cfg : AuthCfg) (ds : List (Via × Nat × Spec.Node)) :
+    (session cfg (ds.map (fun d => ⟨d.1, d.2.1, d.2.2.script⟩))).map observe =
+      ds.map (fun d => Spec.expectFor cfg d.2.1 d.2.2) := by
+  rw [(C20_auth_per_host cfg _).1, List.map_map, List.map_map]
+  apply List.map_congr_left
+  rintro ⟨via, host, n⟩ -
+  obtain ⟨hres, herr, hprov⟩ := C20_auth_resolution cfg host n.script
+  simp only [Function.comp, observe, Spec.expectFor, hprov]
+  cases hc : Spec.credentials cfg host with
+  | none =>
+    obtain ⟨hs, -, ho⟩ := herr hc
+    simp [hs, ho, firstToken]
+  | some a =>
+    obtain ⟨hs, -, ho⟩ := hres a hc
+    obtain ⟨ht, hr⟩ := observe_handshake_node a n
+    simp only [hs, ho, ht, hr]
+    cases n with
+    | noauth => simp
+    | auth cls =>
+      rcases a with _ | a
+      · simp
+      · cases a with
+        | pw p => by_cases ha : approve cls p.allowed = true <;> simp [ha]
+        | custom rs sf =>
+          rcases rs with _ | ⟨r, rs⟩
+          · simp
+          · by_cases hf : r.fail = true
+            · simp [hf]
+            · cases hl : r.last <;> cases sf <;> simp [hf]
+
+/-- COUNTEREXAMPLE for the pinned variant (`initPinned`: `Conn.init` stores the authenticator obtained from the
+    AuthProvider in the configuration object it was handed, and later connections find it there): a provider with
+    alice's credentials (allow-list: class A only) for host 1 and bob's (class B only) for host 2, both nodes
+    advertise class A; pool connection to host 1, then to host 2.  The second node receives ALICE's token although
+    host 2's own authenticator does not approve class A (the property demands: no token, no session) — and a
+    control-connection dial made after the pool connection carries the pin too, whereas one made before does not.
+    `session` (the code that exists) gives the demanded observations on the same input. -/
+theorem C20_cex_pinned_auth :
+    let clsA := strBytes "A"
+    let clsB := strBytes "B"
+    let cfg : AuthCfg := ⟨none, some (fun h => if h = 1 then .auth (some (.pw ⟨[97], [49], [clsA]⟩))
+                                               else .auth (some (.pw ⟨[98], [50], [clsB]⟩)))⟩
+    let nodeA := (Spec.Node.auth clsA).script
+    (sessRun initPinned cfg [⟨.pool, 1, nodeA⟩, ⟨.pool, 2, nodeA⟩]).map observe =
+      [⟨[1], some [0, 97, 0, 49], true⟩, ⟨[], some [0, 97, 0, 49], true⟩] ∧
+    (session cfg [⟨.pool, 1, nodeA⟩, ⟨.pool, 2, nodeA⟩]).map observe =
+      [⟨[1], some [0, 97, 0, 49], true⟩, ⟨[2], none, false⟩] ∧
+    [Spec.expectFor cfg 1 (.auth clsA), Spec.expectFor cfg 2 (.auth clsA)] =
+      [⟨[1], some [0, 97, 0, 49], true⟩, ⟨[2], none, false⟩] ∧
+    (sessRun initPinned cfg [⟨.control, 2, nodeA⟩, ⟨.pool, 1, nodeA⟩, ⟨.control, 2, nodeA⟩]).map observe =
+      [⟨[2], none, false⟩, ⟨[1], some [0, 97, 0, 49], true⟩, ⟨[], some [0, 97, 0, 49], true⟩] := by
+  decide
+
+/-- where the pinned variant and the code agree (why single-host, static-Authenticator and host-independent-provider
+    runs cannot tell them apart): with a static Authenticator and no provider, for every sequence of connections -/
+theorem C20_pinned_same_without_provider (st : Option AuthImpl) (ds : List Dial) :
+    sessRun initPinned ⟨st, none⟩ ds = session ⟨st, none⟩ ds := by
+  have hro : ∀ c h fs, c.provider = none → initPinned c h fs = (c, handshake c.static fs) := by
+    intro c h fs hp
+    obtain ⟨s, p⟩ := c
+    simp only at hp
+    subst hp
+    cases s <;> rfl
+  induction ds with
+  | nil => rfl
+  | cons d ds ih =>
+    have h1 : sessStep initPinned ⟨st, none⟩ d = (⟨st, none⟩, handshake st d.fs) := by
+      simp only [sessStep, hro ⟨st, none⟩ d.host d.fs rfl]
+      cases d.via <;> rfl
+    have h2 : sessStep initConn ⟨st, none⟩ d = (⟨st, none⟩, handshake st d.fs) := by
+      simp only [sessStep, initConn, connect]
+      cases d.via <;> rfl
+    simp only [session, sessRun, h1, h2]
+    exact congrArg _ ih
 
 end C20
